@@ -16,7 +16,7 @@ REG.define_sum('gshare', 's', ['g'],
 REG.define('node_ok(n)',
     'n.lfs >= 0 and n.mem >= 0 and '
     'forall(lambda c: implies(0 <= c < len(n.cores), n.cores[c] is None or n.cores[c] == FREE or n.cores[c] == BUSY)) and '
-    'forall(lambda g: implies(0 <= g < len(n.gpus), n.gpus[g] is None or 0.0 <= val(n.gpus[g]) <= 1.0))')
+    'forall(lambda g: implies(0 <= g < len(n.gpus), n.gpus[g] is None or n.gpus[g] == FREE or n.gpus[g] == BUSY))')
 REG.define('gocc(n, g)', 'ite(n.gpus[g] is None, 0.0, val(n.gpus[g]))')
 
 # shape of one slot found on node n (C02) and freedom of what it names (C01)
@@ -33,7 +33,7 @@ REG.define('whole_gpus(s, n, gps)',
     'forall(lambda j, j2: implies(0 <= j < j2 < len(s.gpus), s.gpus[j].index < s.gpus[j2].index))')
 REG.define('shared_gpu(s, n, gps)',
     'len(s.gpus) == 1 and s.gpus[0].occupation == gps and 0 <= s.gpus[0].index < len(n.gpus) and '
-    'n.gpus[s.gpus[0].index] is not None')
+    'n.gpus[s.gpus[0].index] == FREE')
 
 _fr_post = [
   ('at-most-requested', 'implies(result is not None, len(val(result)) <= n_slots)'),
@@ -298,10 +298,12 @@ RM     = T.Rec('RMA', info=RMInfo)
 
 
 def _iterate_nodes(ex, node, st):
-    """assumed contract of the generator Continuous._iterate_nodes (DESIGN 2.7):
-    it yields every element of self.nodes exactly once, starting at
-    self._node_offset and wrapping around; self._node_offset stays in range.
-    The yielded sequence is returned as a list Y."""
+    """call of the generator Continuous._iterate_nodes by its contract (verified
+    separately, see the spec of _iterate_nodes): it yields the rotation of
+    self.nodes that starts at self._node_offset; self._node_offset stays in
+    range.  The yielded sequence is returned as a list Y.  What is assumed: the
+    consumer takes the values lazily but does not touch self.nodes or
+    self._node_offset in between (schedule_task does neither)."""
     nodes = ex.get_var(st, 'self.nodes')
     off   = ex.get_var(st, 'self._node_offset')
     ty    = nodes.ty
@@ -322,6 +324,10 @@ def _iterate_nodes(ex, node, st):
     st.assume(_z3.ForAll([p], _z3.Implies(_z3.And(0 <= p, p < n),
               _z3.And(0 <= inv(p), inv(p) < n, pos(inv(p)) == p)),
               patterns=[inv(p)]))
+    # pos is the rotation proved for the generator itself (spec of
+    # Continuous._iterate_nodes, clause rotation-from-offset); that a rotation is
+    # a bijection with this inverse is lemma C01.rotation-is-permutation.  Only
+    # the bijection is used here, so pos / inv stay abstract.
     new_off = _fresh(_TInt, 'node_offset')
     st.assume(_z3.And(new_off.term >= 0, _z3.Or(new_off.term < n, n == 0)))
     st.env['self._node_offset'] = new_off
@@ -469,3 +475,237 @@ for _f, _g in (('lfs_on', 'lfs'), ('mem_on', 'mem')):
         hyps  = ['forall(lambda i: implies(0 <= i < n, out[i] == a[i]))'],
         goals = ['sumf("%s", out, n, ni) == sumf("%s", a, n, ni)' % (_f, _f)],
         serves = ['C01'])
+
+
+# ------------------------------------------------------------------------------
+# the node iterator (a generator): yields every node once, starting at the
+# persistent offset and wrapping around
+#
+REG.define('rot(off, i, n)', 'ite(off + i < n, off + i, off + i - n)')
+
+REG.spec('agent/scheduler/continuous.py:Continuous._iterate_nodes',
+    params   = dict(),
+    self     = dict(nodes=NodeL, _node_offset=T.Int),
+    ghost    = dict(yielded=NodeL),
+    locals   = dict(iterator_count=T.Int),
+    requires = ['len(yielded) == 0',
+                'implies(len(self.nodes) > 0, 0 <= self._node_offset < len(self.nodes))'],
+    modifies = ['self._node_offset', 'yielded'],
+    raises   = {},
+    ensures  = [
+      ('every-node-once', 'len(yielded) == len(self.nodes)'),
+      ('rotation-from-offset',
+       'forall(lambda i: implies(0 <= i < len(yielded), '
+       'yielded[i] == self.nodes[rot(old(self._node_offset), i, len(self.nodes))]))'),
+      ('offset-stays-in-range', 'implies(len(self.nodes) > 0, 0 <= self._node_offset < len(self.nodes))'),
+    ],
+    loops    = {'1': ['iterator_count == len(yielded)', '0 <= iterator_count <= len(self.nodes)',
+                      'implies(len(self.nodes) > 0, 0 <= self._node_offset < len(self.nodes))',
+                      'implies(len(self.nodes) > 0, self._node_offset == rot(old(self._node_offset), iterator_count, len(self.nodes)) '
+                      'or (iterator_count == len(self.nodes) and self._node_offset == old(self._node_offset)))',
+                      'forall(lambda i: implies(0 <= i < len(yielded), '
+                      'yielded[i] == self.nodes[rot(old(self._node_offset), i, len(self.nodes))]))']},
+    serves   = ['C01', 'C02'])
+
+# a rotation of [0, n) is a bijection: what schedule_task relies on
+REG.lemma('C01.rotation-is-permutation',
+    vars  = dict(off=T.Int, n=T.Int, i=T.Int, j=T.Int, p=T.Int),
+    hyps  = ['n > 0', '0 <= off < n', '0 <= i < n', '0 <= j < n', '0 <= p < n'],
+    goals = [('in-range', '0 <= rot(off, i, n) < n'),
+             ('injective', 'implies(rot(off, i, n) == rot(off, j, n), i == j)'),
+             ('surjective', '0 <= ite(p >= off, p - off, p - off + n) < n and '
+                            'rot(off, ite(p >= off, p - off, p - off + n), n) == p')],
+    serves = ['C01', 'C02'])
+
+
+# ------------------------------------------------------------------------------
+# the scheduler's occupancy invariant and the grant / release operations
+#
+REG.define('sched_inv(nodes, gpn)',
+    'distinct_nodes(nodes) and forall(lambda n: implies(0 <= n < len(nodes), '
+    'node_ok(nodes[n]) and len(nodes[n].cores) >= 1 and len(nodes[n].gpus) >= gpn))')
+
+_sched_self = dict(_st_self)
+_sched_self.update(_active_cnt=T.Int)
+
+_sched_task_requires = [
+    'task.description.ranks >= 1', 'task.description.cores_per_rank >= 0',
+    'task.description.gpus_per_rank >= 0', 'task.description.lfs_per_rank >= 0',
+    'task.description.mem_per_rank >= 0',
+    'implies(task.description.ranks_per_node is not None, val(task.description.ranks_per_node) >= 0)',
+    'self._rm.info.cores_per_node >= 1', 'self._rm.info.gpus_per_node >= 0',
+    'self._rm.info.lfs_per_node >= 0', 'self._rm.info.mem_per_node >= 0',
+    'implies(len(self.nodes) > 0, 0 <= self._node_offset < len(self.nodes))']
+
+REG.spec('agent/scheduler/base.py:AgentSchedulingComponent._try_allocation',
+    params   = dict(task=ATask),
+    self     = _sched_self,
+    returns  = T.Bool,
+    calls    = {'self.schedule_task': 'agent/scheduler/continuous.py:Continuous.schedule_task',
+                'self._change_slot_states': 'agent/scheduler/base.py:AgentSchedulingComponent._change_slot_states'},
+    effects  = {'self.slot_status': ignore_call},
+    requires = ['sched_inv(self.nodes, self._rm.info.gpus_per_node)', 'self._active_cnt >= 0'] +
+               _sched_task_requires,
+    modifies = ['self.nodes', 'self._active_cnt', 'task', 'self._colo_history',
+                'self._tagged_nodes', 'self._node_offset'],
+    raises   = {'RuntimeError': 'True', 'AssertionError': 'True', 'ValueError': 'True'},
+    raises_weak = ['RuntimeError', 'AssertionError', 'ValueError'],
+    # C03 / C04: a task that was not placed holds nothing
+    exc_ensures = {e: [('nothing-taken', 'self.nodes == old(self.nodes) and self._active_cnt == old(self._active_cnt)'),
+                       ('request-kept', 'task.uid == old(task.uid) and task.description == old(task.description)')]
+                   for e in ('RuntimeError', 'AssertionError', 'ValueError')},
+    ensures  = [
+      ('invariant-kept', 'sched_inv(self.nodes, self._rm.info.gpus_per_node)'),
+      ('skeleton-kept', 'same_skeleton(self.nodes, old(self.nodes))'),
+      ('refused-takes-nothing', 'implies(not result, self.nodes == old(self.nodes) and self._active_cnt == old(self._active_cnt) and old(self._active_cnt) > 0)'),
+      ('request-kept', 'task.uid == old(task.uid) and task.description == old(task.description)'),
+      ('granted-is-counted', 'implies(result, self._active_cnt == old(self._active_cnt) + 1)'),
+      ('granted-placement-recorded-on-task',
+       'implies(result, task.slots is not None and len(val(task.slots)) == task.description.ranks)'),
+      ('granted-cells-were-free',
+       'implies(result, forall(lambda k: implies(0 <= k < len(val(task.slots)), '
+       'rank_placed(val(task.slots)[k], old(self.nodes), eff_cps(task.description), task.description.gpus_per_rank, '
+       'task.description.lfs_per_rank, task.description.mem_per_rank))))'),
+      ('granted-cells-now-busy-nothing-else-changed',
+       'implies(result, cores_marked(self.nodes, old(self.nodes), val(task.slots), len(val(task.slots)), BUSY) and '
+       'gpus_marked(self.nodes, old(self.nodes), val(task.slots), len(val(task.slots)), BUSY) and '
+       'lfs_mem_moved(self.nodes, old(self.nodes), val(task.slots), len(val(task.slots)), BUSY))'),
+    ],
+    serves   = ['C01', 'C03', 'C04'])
+
+
+REG.spec('agent/scheduler/continuous.py:Continuous.unschedule_task',
+    params   = dict(tasks=ATask),
+    self     = dict(nodes=NodeL),
+    calls    = {'self._change_slot_states': 'agent/scheduler/base.py:AgentSchedulingComponent._change_slot_states'},
+    requires = ['distinct_nodes(self.nodes)', 'tasks.slots is not None',
+                'placement_fits(val(tasks.slots), self.nodes)'],
+    modifies = ['self.nodes'],
+    raises   = {},
+    ensures  = [
+      ('skeleton-kept', 'same_skeleton(self.nodes, old(self.nodes))'),
+      ('held-cells-freed-nothing-else-changed',
+       'cores_marked(self.nodes, old(self.nodes), val(tasks.slots), len(val(tasks.slots)), FREE) and '
+       'gpus_marked(self.nodes, old(self.nodes), val(tasks.slots), len(val(tasks.slots)), FREE) and '
+       'lfs_mem_moved(self.nodes, old(self.nodes), val(tasks.slots), len(val(tasks.slots)), FREE)'),
+    ],
+    serves   = ['C03'])
+
+# C03: releasing a placement restores precisely what granting it took
+REG.define('named_cells_free(nodes, slots)',
+    'forall(lambda k, n, j: implies(0 <= k < len(slots) and 0 <= n < len(nodes) and '
+    'nodes[n].index == slots[k].node_index and 0 <= j < len(slots[k].cores), '
+    'nodes[n].cores[slots[k].cores[j].index] == FREE)) and '
+    'forall(lambda k, n, j: implies(0 <= k < len(slots) and 0 <= n < len(nodes) and '
+    'nodes[n].index == slots[k].node_index and 0 <= j < len(slots[k].gpus), '
+    'nodes[n].gpus[slots[k].gpus[j].index] == FREE))')
+REG.lemma('C03.roundtrip',
+    vars  = dict(n0=NodeL, n1=NodeL, n2=NodeL, slots=SlotL),
+    hyps  = ['same_skeleton(n1, n0)', 'same_skeleton(n2, n1)',
+             'named_cells_free(n0, slots)',
+             # grant (_try_allocation / _change_slot_states BUSY)
+             'cores_marked(n1, n0, slots, len(slots), BUSY)', 'gpus_marked(n1, n0, slots, len(slots), BUSY)',
+             'lfs_mem_moved(n1, n0, slots, len(slots), BUSY)',
+             # release (unschedule_task / _change_slot_states FREE)
+             'cores_marked(n2, n1, slots, len(slots), FREE)', 'gpus_marked(n2, n1, slots, len(slots), FREE)',
+             'lfs_mem_moved(n2, n1, slots, len(slots), FREE)'],
+    goals = [('cores-restored', 'forall(lambda n, c: implies(0 <= n < len(n0) and 0 <= c < len(n0[n].cores), n2[n].cores[c] == n0[n].cores[c]))'),
+             ('gpus-restored',  'forall(lambda n, c: implies(0 <= n < len(n0) and 0 <= c < len(n0[n].gpus), n2[n].gpus[c] == n0[n].gpus[c]))'),
+             ('lfs-mem-restored', 'forall(lambda n: implies(0 <= n < len(n0), n2[n].lfs == n0[n].lfs and n2[n].mem == n0[n].mem))'),
+             ('skeleton', 'same_skeleton(n2, n0)')],
+    serves = ['C03'])
+# what one task holds is never offered to another: cells marked BUSY are not FREE,
+# and the search only hands out FREE cells (C01 / C03)
+REG.lemma('C03.held-not-offered',
+    vars  = dict(n0=NodeL, n1=NodeL, mine=SlotL, other=SlotL, cps=T.Int, gps=T.Real, lfs=T.Int, mem=T.Int),
+    hyps  = ['distinct_nodes(n0)', 'same_skeleton(n1, n0)',
+             'placement_fits(mine, n0)',
+             'cores_marked(n1, n0, mine, len(mine), BUSY)', 'gpus_marked(n1, n0, mine, len(mine), BUSY)',
+             # another task is then placed on the marked list
+             'forall(lambda k: implies(0 <= k < len(other), rank_placed(other[k], n1, cps, gps, lfs, mem)))'],
+    goals = [('no-shared-core',
+              'forall(lambda k, k2, j, j2: implies(0 <= k < len(mine) and 0 <= k2 < len(other) and '
+              'mine[k].node_index == other[k2].node_index and 0 <= j < len(mine[k].cores) and 0 <= j2 < len(other[k2].cores), '
+              'mine[k].cores[j].index != other[k2].cores[j2].index))'),
+             ('no-shared-gpu',
+              'forall(lambda k, k2, j, j2: implies(0 <= k < len(mine) and 0 <= k2 < len(other) and '
+              'mine[k].node_index == other[k2].node_index and 0 <= j < len(mine[k].gpus) and 0 <= j2 < len(other[k2].gpus), '
+              'mine[k].gpus[j].index != other[k2].gpus[j2].index))')],
+    serves = ['C01', 'C03'])
+
+
+# ------------------------------------------------------------------------------
+# AgentSchedulingComponent._unschedule_completed: one release per message
+#
+from .effects import nondet_bool
+ATaskL = T.List(ATask)
+
+
+def _unsched_get(ex, node, st):
+    """self._queue_unsched.get(timeout=..): either raises queue.Empty or returns
+    a bulk of tasks; every task a peer asks to release holds a placement that
+    fits the node list (rely: the executor only releases what was granted).
+    The bulk is appended to the ghost list `received`."""
+    from pyvc.symexec import State
+    e = st.fork(); e.guards = []
+    ex.exits.append(('Empty', e, ex.cur_line))
+    bulk = ex.fresh_wf(st, ATaskL, 'bulk')
+    sub = st.fork(); sub.env = dict(st.env); sub.env['bulk'] = bulk
+    st.assume(ex.spec_bool('forall(lambda t: implies(0 <= t < len(bulk), holds_placement(bulk[t], self.nodes)))', sub))
+    rec = ex.get_var(st, 'received')
+    st.env['received'] = ex.list_concat(rec, bulk, st)
+    return bulk
+_unsched_get.mutates = ('received',)
+
+REG.define('holds_placement(t, nodes)',
+    't.slots is not None and placement_fits(val(t.slots), nodes)')
+REG.define('task_cells_free(t, nodes)',
+    'forall(lambda k, n, j: implies(0 <= k < len(val(t.slots)) and 0 <= n < len(nodes) and '
+    'nodes[n].index == val(t.slots)[k].node_index and 0 <= j < len(val(t.slots)[k].cores), '
+    'nodes[n].cores[val(t.slots)[k].cores[j].index] == FREE)) and '
+    'forall(lambda k, n, j: implies(0 <= k < len(val(t.slots)) and 0 <= n < len(nodes) and '
+    'nodes[n].index == val(t.slots)[k].node_index and 0 <= j < len(val(t.slots)[k].gpus), '
+    'nodes[n].gpus[val(t.slots)[k].gpus[j].index] == FREE))')
+# a cell changed only if a task of the first `upto` tasks names it
+REG.define('only_cells_of(new, old, tasks, upto)',
+    'forall(lambda n, c: implies(0 <= n < len(new) and 0 <= c < len(new[n].cores) and new[n].cores[c] != old[n].cores[c], '
+    'exists(lambda t, k, j: 0 <= t < upto and 0 <= k < len(val(tasks[t].slots)) and 0 <= j < len(val(tasks[t].slots)[k].cores) and '
+    'val(tasks[t].slots)[k].node_index == old[n].index and val(tasks[t].slots)[k].cores[j].index == c))) and '
+    'forall(lambda n, c: implies(0 <= n < len(new) and 0 <= c < len(new[n].gpus) and new[n].gpus[c] != old[n].gpus[c], '
+    'exists(lambda t, k, j: 0 <= t < upto and 0 <= k < len(val(tasks[t].slots)) and 0 <= j < len(val(tasks[t].slots)[k].gpus) and '
+    'val(tasks[t].slots)[k].node_index == old[n].index and val(tasks[t].slots)[k].gpus[j].index == c)))')
+
+REG.spec('agent/scheduler/base.py:AgentSchedulingComponent._unschedule_completed',
+    params   = dict(),
+    self     = dict(nodes=NodeL, _active_cnt=T.Int),
+    ghost    = dict(received=ATaskL),
+    returns  = T.Tuple(T.Bool, T.Bool),
+    locals   = dict(to_unschedule=ATaskL, to_release=ATaskL, tasks=ATaskL),
+    calls    = {'self._term.is_set': nondet_bool,
+                'self._queue_unsched.get': _unsched_get,
+                'self.unschedule_task': 'agent/scheduler/continuous.py:Continuous.unschedule_task'},
+    effects  = {'self._refresh_ts_map': ignore_call},
+    requires = ['distinct_nodes(self.nodes)', 'len(received) == 0'],
+    modifies = ['self.nodes', 'self._active_cnt', 'received'],
+    raises   = {},
+    no_raise_is_property = True,
+    ensures  = [
+      ('one-decrement-per-released-task', 'self._active_cnt == old(self._active_cnt) - len(received)'),
+      ('skeleton-kept', 'same_skeleton(self.nodes, old(self.nodes))'),
+      ('cells-of-every-released-task-are-free',
+       'forall(lambda t: implies(0 <= t < len(received), task_cells_free(received[t], self.nodes)))'),
+      ('nothing-else-changed', 'only_cells_of(self.nodes, old(self.nodes), received, len(received))'),
+      ('reports-new-resources-iff-something-was-released', 'result[0] == (len(received) > 0)'),
+    ],
+    loops = {
+      '1': ['to_unschedule == received', 'self.nodes == old(self.nodes)', 'self._active_cnt == old(self._active_cnt)',
+            'forall(lambda t: implies(0 <= t < len(received), holds_placement(received[t], self.nodes)))'],
+      '2': ['len(to_release) == i_task', 'self._active_cnt == old(self._active_cnt) - i_task',
+            'forall(lambda t: implies(0 <= t < i_task, to_release[t] == to_unschedule[t]))'],
+      '3': ['same_skeleton(self.nodes, old(self.nodes))', 'distinct_nodes(self.nodes)',
+            'forall(lambda t: implies(0 <= t < len(to_release), holds_placement(to_release[t], old(self.nodes))))',
+            'forall(lambda t: implies(0 <= t < i_task, task_cells_free(to_release[t], self.nodes)))',
+            'only_cells_of(self.nodes, old(self.nodes), to_release, i_task)'],
+    },
+    opts   = dict(merge='scalars'),
+    serves = ['C03'])
